@@ -172,40 +172,50 @@ def concurrent_pairs(v, ctx, bins, classes):
         pair = Pair(ctx, bins["tftpd"], single, "127.0.0.1")
         try:
             srv, sb, cli = pair.srv, pair.sb, pair.cli
-            combos = [(("upload", 1428, 4, 600_000), ("download", 512, 1, 3000)), (("upload", 1024, 1, 400_000), ("upload", 512, 2, 5000)),
-                      (("download", 8192, 2, 900_000), ("upload", 8, 16, 2000)), (("upload", 65464, 1, 2_000_000), ("download", 512, 1, 700))]
+            # the first transfer is long enough (hundreds of ms) for the second client to arrive in its middle
+            combos = [(("upload", 1428, 1, 12_000_000), ("download", 512, 1, 3000)), (("upload", 1024, 1, 8_000_000), ("upload", 512, 2, 5000)),
+                      (("download", 8192, 1, 40_000_000), ("upload", 8, 16, 2000)), (("upload", 65464, 1, 60_000_000), ("download", 512, 1, 700))]
             for ci, (a, b) in enumerate(combos):
                 n += 1
                 results = {}
 
-                def go(tag, spec):
+                prepared = {}
+                for tag, spec in (("a", a), ("b", b)):
                     kind, bsz, w, size = spec
-                    content = N.keyed_content(f"cc-{single}-{ci}-{tag}", size)
+                    content = os.urandom(size) if size > 1_000_000 else N.keyed_content(f"cc-{single}-{ci}-{tag}", size)
                     name = f"cc{ci}{tag}.bin"
+                    write(os.path.join(cli if kind == "upload" else sb["srv"], name), content)
+                    prepared[tag] = (content, name)
+
+                def go(tag, spec):
+                    t_start = time.time()
+                    kind, bsz, w, size = spec
+                    content, name = prepared[tag]
                     common = ["-i", "127.0.0.1", "-p", str(srv.port), "-b", str(bsz), "-w", str(w), "-t", "2"]
                     if kind == "upload":
-                        write(os.path.join(cli, name), content)
                         rc, out, err, dt = run_client(bins["tftpc"], cli, [name, "-u"] + common)
                         time.sleep(0.05)
                         tgt = os.path.join(sb["srv"], name)
                     else:
-                        write(os.path.join(sb["srv"], name), content)
                         rc, out, err, dt = run_client(bins["tftpc"], cli, [name, "-d", "-rd", "dl"] + common)
                         tgt = os.path.join(cli, "dl", name)
                     got = open(tgt, "rb").read() if os.path.exists(tgt) else None
-                    results[tag] = (spec, got == content, None if got is None else len(got), len(content), err[-160:])
+                    results[tag] = (spec, got == content, None if got is None else len(got), len(content), err[-160:], t_start, dt)
 
                 ta = threading.Thread(target=go, args=("a", a))
                 tb = threading.Thread(target=go, args=("b", b))
                 d0 = N.udp_counters()
                 ta.start()
-                time.sleep(0.03)   # the second client arrives while the first (longer) transfer is running
+                time.sleep(0.08)   # the second client arrives while the first (longer) transfer is running
                 tb.start()
                 ta.join()
                 tb.join()
                 d1 = N.udp_counters()
                 dropped = (d1[0] - d0[0]) + (d1[1] - d0[1])
-                for tag, (spec, ok, gotlen, wantlen, err) in results.items():
+                # b started after a started and before a ended
+                overlap = results["a"][5] < results["b"][5] < results["a"][5] + results["a"][6]
+                classes["concurrent-pair-overlapped"] = classes.get("concurrent-pair-overlapped", 0) + (1 if overlap else 0)
+                for tag, (spec, ok, gotlen, wantlen, err, _t, _dt) in results.items():
                     if not ok and dropped == 0:
                         v.violation(f"C14/concurrent/{spec[0]}", f"{'single' if single else 'multi'}-port: two tftpc clients at once {a} + {b}: {spec} ended with {gotlen} of {wantlen} bytes (stderr {err!r})",
                                     {"engine": "net", "single_port": single, "clients": [a, b], "failed": spec})
@@ -283,6 +293,8 @@ def run(tier):
             for p in pl:
                 p.srv.stop()
     evaluations += concurrent_pairs(v, ctx, bins, classes)
+    if classes.get("concurrent-pair-overlapped", 0) == 0:
+        v.note_inconclusive("no concurrent client pair actually overlapped in time")
     evaluations += refusals(v, ctx, bins, classes)
     cov = {"evaluations": evaluations, "distinct_nontrivial": len(distinct),
            "rule": "the real tftpc binary is run against the real tftpd binary on loopback for sizes {0,1,b-1,b,b+1,wb,wb+1, >65535 blocks at b=8} x blksize {8,512,1428,65464} x windowsize {1,2,16,64,65535} x timeout {1,5,255} x {single,multi} port x {127.0.0.1, ::1} x {download, upload} x {plain, nested, Windows-style path} (seeded sample in quick, full product in thorough), restricted to the loss-free envelope (in-flight datagram truesize <= 100 kB; kernel Udp RcvbufErrors/InErrors sampled around every case). After tftpc exits both trees are snapshotted: only <-rd>/<basename> (download) or <receive dir>/<basename> (upload) may appear and must equal the source. Refusals (ERROR 1, 2, 6): no file changes, error text on the client's output. distinct = distinct parameter tuples.",
